@@ -25,7 +25,9 @@ META = dict(
          "deadlock freedom is per protocol instance, not for arbitrary compositions (observed under a deadline). A worker pool is 'any "
          "permutation of the mapped batches' (LTS over take/emit labels proved to emit such a permutation). Speed and LimitMemory are "
          "modelled as the identity (correspondence only; Speed needs stderr to be a character device: the harness gives it /dev/null). "
-         "MakeIConditionalWorker drops the records that do not satisfy the condition (transcribed, C16 observation). IFragments on paired "
+         "Load sorts the collected batches by number (stable insertion sort in the model, sort.SliceStable in the code); MakeIConditionalWorker passes "
+         "the records that do not satisfy the condition through unchanged (both after the fixes merged from C13 / C16; load_v0 / cond_worker_v0 "
+         "are the code before). IFragments on paired "
          "data unpairs the fragmented records (oracle only). The data race on the receiver variable re-assigned by `iterator = "
          "iterator.SortBatches()` inside the goroutine of Rebatch/FilterEmpty/DivideOn/Distribute while the caller reads "
          "iterator.IsPaired() is real for the race detector but cannot change an observable (both values carry the same paired mark; the "
@@ -373,13 +375,14 @@ def oracle_core(c, o):
                 return "split: a consumer received %s, not in channel order %s" % (bs, S[0])
         return None
     if op in ("load", "load_sorted", "completefile", "completefile_sorted"):
-        allr = recs(S[0]) if op.endswith("_sorted") else flat(S[0])
+        allr = recs(S[0])       # Load sorts the collected batches by number (stable): input order whatever the arrival order
         if op.startswith("load"):
             return same(out0, [dict(o=0, ids=allr)], "loaded slice")
         return same(out0, [dict(o=0, ids=allr)] if allr else [], "single batch of the complete file")
     if op in ("condworker", "condworker_sorted", "sliceworker"):
         sel = (lambda i: True) if op == "sliceworker" else (lambda i: pred(c["mod2"], i))
-        exp = [dict(o=b["o"], ids=[j for i in b["ids"] if sel(i) for j in wf(c["mod"], i)]) for b in sorted(S[0], key=lambda b: b["o"])]
+        # the worker on the selected records, the others unchanged, at their place
+        exp = [dict(o=b["o"], ids=[j for i in b["ids"] for j in (wf(c["mod"], i) if sel(i) else [i])]) for b in sorted(S[0], key=lambda b: b["o"])]
         got = out0 if op != "condworker" else sorted(out0, key=lambda b: b["o"])
         return same(got, exp, "delivered batches")
     if op in ("filteron_p", "filterand_p"):
